@@ -11,28 +11,46 @@ T == Traces[i]
 PP == [L |-> T.p.l, L2 |-> T.p.l2, CS |-> T.p.cs, SS |-> T.p.ss, CMMS |-> T.p.cmms, SMMS |-> T.p.smms, Faults |-> 1000, Guard |-> TRUE]
 File(d) == d.pieces              \* request bodies: <<pos, a, b>>; response bodies: <<pos, a, b, version>>
 Has(q, x) == \E k \in 1..Len(q) : q[k] = x
+Conc == T.op = "conc"            \* a record of N concurrent exchanges (see C04_NoMix)
 Success == T.ret = "ok" /\ T.retcode \in {68, 69}         \* the call returned a 2.04 / 2.05 response
 
 \* "hands the receiving application exactly the bytes the sending application supplied" / "never a partial body
 \*  presented as complete" / "never corrupt, truncate or extend a body" - request direction
-C04_ExactUp   == J => \A k \in 1..Len(T.app) : (T.app[k].len = 0 /\ T.p.l = 0) \/ FileIs(File(T.app[k]), T.p.l)
+C04_ExactUp   == (J /\ ~Conc) => \A k \in 1..Len(T.app) : (T.app[k].len = 0 /\ T.p.l = 0) \/ FileIs(File(T.app[k]), T.p.l)
 \* - response direction
 \*   (every execution of the server application yields a new representation, announced by its ETag: the body handed
 \*    over is ONE of the representations produced, whole - never a mixture, never zeros in place of bytes)
-C04_ExactDown == (J /\ Success) => \A k \in 1..Len(T.got) : (T.got[k].len = 0 /\ T.p.l2 = 0)
+C04_ExactDown == (J /\ ~Conc /\ Success) => \A k \in 1..Len(T.got) : (T.got[k].len = 0 /\ T.p.l2 = 0)
                                        \/ (FileIs(File(T.got[k]), T.p.l2) /\ OneVersion(File(T.got[k])) /\ File(T.got[k])[1][4] \in 1..Len(T.app))
 \* "with the message's other options preserved"
-C04_Options   == J => /\ \A k \in 1..Len(T.app) : (T.app[k].query /\ Has(T.app[k].opts, 11) /\ (T.p.l > 0 => T.app[k].cf = 42))
-                      /\ Success => \A k \in 1..Len(T.got) : (Has(T.got[k].opts, 14) /\ T.got[k].cf = 42)
+C04_Options   == (J /\ ~Conc) =>
+                   ((\A k \in 1..Len(T.app) : (T.app[k].query /\ Has(T.app[k].opts, 11) /\ (T.p.l > 0 => T.app[k].cf = 42)))
+                    /\ (Success => \A k \in 1..Len(T.got) : (Has(T.got[k].opts, 14) /\ T.got[k].cf = 42)))
 \* "exactly once": without channel faults one delivery per completed exchange; on datagram connections (message-ID
 \* de-duplication underneath) never more than one, whatever is duplicated or replayed
-C04_Once      == J => /\ (~T.faulty /\ Success) => (Len(T.app) = 1 /\ Len(T.got) = 1)
-                      /\ (T.op = "e2e" /\ T.transport = "udp" /\ T.p.l > 0) => Len(T.app) <= 1      \* (a request BODY is handed over once;
-                                                      \* a body-less GET may be served again when a continuation outlives the response)
+C04_Once      == (J /\ ~Conc) =>
+                   (((~T.faulty /\ Success) => (Len(T.app) = 1 /\ Len(T.got) = 1))
+                    \* (a request BODY is handed over once; a body-less GET may be served again when a continuation outlives the response)
+                    /\ ((T.op = "e2e" /\ T.transport = "udp" /\ T.p.l > 0) => Len(T.app) <= 1))
 \* "an exchange that cannot complete ends with an error or timeout - never by hanging", nothing crashes
-C04_Ends      == J => (T.ret \in {"ok", "err", "none"} /\ T.ret # "hung" /\ T.panics = 0)
+C04_Ends      == (J /\ ~Conc) => (T.ret \in {"ok", "err", "none"} /\ T.ret # "hung" /\ T.panics = 0)
 \* after the transfer timeout neither side holds reassembly or send buffers (shared with C13)
-C04_NoLeftovers == J => (T.rcvSrvX = 0 /\ T.sndSrvX = 0 /\ T.rcvCliX = 0 /\ T.sndCliX = 0)
+C04_NoLeftovers == (J /\ ~Conc) => (T.rcvSrvX = 0 /\ T.sndSrvX = 0 /\ T.rcvCliX = 0 /\ T.sndCliX = 0)
+
+\* "concurrent transfers with different tokens never mix": N exchanges at the same time on one pair of connections; every
+\* request body reaches the application whole, once, as the body of ITS exchange; every caller gets one whole representation,
+\* and no two callers the same one
+XOK(x) == x.ret = "ok" /\ x.retcode \in {68, 69}
+C04_NoMix == (J /\ Conc) => /\ T.stray = 0
+                            /\ \A k \in 1..T.n : LET x == T.x[k] IN
+                                 /\ x.ret \in {"ok", "err"}
+                                 /\ \A a \in 1..Len(x.app) : (x.app[a].len = 0 /\ x.uplen = 0) \/ FileIs(File(x.app[a]), x.uplen)
+                                 /\ XOK(x) => /\ Len(x.app) = 1 /\ Len(x.got) = 1
+                                              /\ (x.got[1].len = 0 /\ T.p.l2 = 0) \/ (FileIs(File(x.got[1]), T.p.l2) /\ OneVersion(File(x.got[1])) /\ File(x.got[1])[1][4] \in 1..T.napp)
+                            /\ \A a, b \in 1..T.n : (a # b /\ XOK(T.x[a]) /\ XOK(T.x[b]) /\ T.p.l2 > 0) => File(T.x[a].got[1])[1][4] # File(T.x[b].got[1])[1][4]
+\* conformance only - fault-free: all of them complete (except the BERT case O1, DESIGN 5 C04)
+O1x(l) == T.p.cs = 7 /\ l > 1024 /\ l < Buf(7, T.p.cmms) /\ l % 1024 # 0
+K04_ConcCompletes == (J /\ Conc) => \A k \in 1..T.n : (XOK(T.x[k]) \/ O1x(T.x[k].uplen))
 
 \* ---- conformance only: the layer followed the specification message by message ---------------------------------
 Applied == LET idx == SelectSeq([k \in 1..Len(T.acts) |-> k], LAMBDA k : T.applied[k]) IN [j \in 1..Len(idx) |-> T.acts[idx[j]]]
@@ -45,5 +63,5 @@ SameMsg(m, r) == /\ m.dir = r.dir /\ m.kind = r.kind /\ m.b1 = r.b1 /\ m.b2 = r.
                  /\ (r.plen >= 4 /\ r.pay[1] >= 0) => <<r.pay[1], r.pay[2]>> = m.pay
 K04_Conforms  == (J /\ T.op = "layer" /\ ~T.concurrent) => (Len(MF.sent) = Len(T.msgs) /\ \A k \in 1..Len(T.msgs) : SameMsg(MF.sent[k], T.msgs[k]))
 \* a fault-free exchange that the specification completes is completed by the code
-K04_Completes == (J /\ ~T.faulty /\ T.quiet /\ T.op = "layer" /\ Completed(MF)) => Success
+K04_Completes == (J /\ ~Conc /\ ~T.faulty /\ T.quiet /\ T.op = "layer" /\ Completed(MF)) => Success
 =============================================================================
